@@ -78,7 +78,7 @@ def valueFirst (t : List Nat) (p : Doc) : Doc := .obj (.cons (.text t) p (.cons 
     payload: the variant keeps its name, carries the payload losslessly, and re-serializes to the
     canonical (type-first) document -/
 theorem C10_union_unknown_roundtrip (fmt : Fmt) (side : Side) (vs : List UVariant) (t : List Nat) (p : Doc) (a : Any)
-    (hn : listed vs t = none) (ht : t ≠ typeKey) (hc : JsonClean p) (ha : ofJson p = some a) :
+    (hn : listed vs t = none) (ht : t ≠ typeKey) (hc : JsonClean p) (hd : DistinctKeys p) (ha : ofJson p = some a) :
     unionDe fmt side false vs (typeFirst t p) = .ok (.unknown t a) ∧
     unionDe fmt side false vs (valueFirst t p) = .ok (.unknown t a) ∧
     unionSer .json vs (.unknown t a) = some (typeFirst t p) := by
@@ -86,7 +86,7 @@ theorem C10_union_unknown_roundtrip (fmt : Fmt) (side : Side) (vs : List UVarian
   refine ⟨?_, ?_, ?_⟩
   · simp [typeFirst, unionDe, hv, payloadOf, ha]
   · simp [valueFirst, unionDe, ht, hv, payloadOf, ha]
-  · simp [unionSer, typeFirst, jsonAnyJson p hc a ha]
+  · simp [unionSer, typeFirst, jsonAnyJson p hc hd a ha]
 
 /-- **listed variants are never unknown**: whatever the payload, a document naming a listed variant
     either fails or yields that variant -/
